@@ -1,7 +1,7 @@
 #!/bin/sh
 # tools/run_all.sh [quick|thorough] [seed]   - run every registered check, one after the other; print a summary
 cd "$(dirname "$0")/.."
-tier=${1:-quick}; seed=${2:-1}
+tier=${1:-quick}; seed=${2:-1}; mkdir -p out
 ids=$(/venv/bin/python -c "import json;print(' '.join(c['property_id'] for c in json.load(open('MANIFEST.json'))['checks']))")
 rc=0
 for id in $ids; do
